@@ -291,8 +291,16 @@ def gen_mods(rng, tree, n=None):
     leaves = [p for p in PW.leaf_paths(tree)]
     mods = []
     for _ in range(n or rng.randint(1, 3)):
-        kind = weighted(rng, [("update", 7), ("add_child", 1.5), ("replace_child", 1.5)])
-        if kind == "update":
+        kind = weighted(rng, [("update", 7), ("bracket", 2), ("add_child", 1.5), ("replace_child", 1.5)])
+        if kind == "bracket":
+            # a bracket's rate or threshold edited in place (the number of brackets stays)
+            i = rng.randrange(len(tree["sc"]["brackets"]))
+            what = pick(rng, ["rate", "rate", "threshold"])
+            vals = tree["sc"]["brackets"][i][what]
+            dates = sorted(d for d, v in vals if v != "expected")
+            value = round(rng.uniform(100.0 * i, 100.0 * i + 50), 2) if what == "threshold" else round(rng.uniform(0, 1), 2)
+            mods.append(["update", ["sc", i, what], gen_range(rng, dates), value])
+        elif kind == "update":
             path = pick(rng, leaves)
             dates = sorted(d for d, v in PW.spec_at(tree, path)["values"] if v != "expected")
             value = round(rng.uniform(0, 10), 2)
@@ -323,6 +331,8 @@ def gen_read(rng, tree, systems, hot=None, pool=None):
     # a few instants per scenario are read again and again, on every system: what
     # one tree showed at an instant must not decide what another tree shows there
     date = pick(rng, pool) if pool and chance(rng, 0.7) else PW.rand_date(rng, 2005, 2021)
+    if chance(rng, 0.2):
+        return ["sread", sysid, pick(rng, ["a", "b"]), date]
     kind = weighted(rng, [("str", 3), ("enum", 2), ("enumarray", 2), ("nested", 2), ("date", 4)])
     route = pick(rng, ["a", "a", "c", "d"])
     if kind == "date":
@@ -416,7 +426,7 @@ def _leaves_of(node):
 
 def _hot(mods):
     for m in mods:
-        if m[0] == "update":
+        if m[0] == "update" and not any(isinstance(x, int) for x in m[1]):
             a, b = range_bounds(m[2])
             ds = [a, PW.shift(a, -1), PW.shift(a, 3)] + ([b, PW.shift(b, 1)] if b else [])
             return (tuple(m[1]), ds)
@@ -633,6 +643,34 @@ def run_c07(scn) -> Result:
                     res.violate("C07.trace", step, op=do, tree_value=want, got=got[1:])
                 elif not ok:
                     res.violate("C07.agree", step, op=do, route=route, tree_value=want, got=canon(got), writes_before=writes)
+            elif kind == "sread":
+                # the scale at a date, against its brackets' own dated leaves
+                _, sid, route, date = do
+                if sid not in systems:
+                    continue
+                system = systems[sid]
+                sc_node = getattr(system.parameters, "sc", None)
+                if sc_node is None:
+                    continue
+                want = []
+                for b in sc_node.brackets:
+                    t, r = b.threshold(date), b.rate(date)
+                    if t is not None and r is not None:
+                        want.append((float(t), float(r)))
+                want.sort()
+                try:
+                    at = system.get_parameters_at_instant(date).sc if route == "a" else sc_node(date)
+                    got = sorted((float(t), float(r)) for t, r in zip(at.thresholds, at.rates))
+                except Exception as e:  # noqa: BLE001
+                    res.violate("C07.agree", step, op=do, route=route, what="scale read raised", error=type(e).__name__)
+                    break
+                res.count("clause:C07.agree")
+                res.count("probe:scale_read")
+                if writes:
+                    reads_after_write += 1
+                H.add(op["actor"], "sread", do[1:], [want, got])
+                if got != want:
+                    res.violate("C07.agree", step, op=do, route=route, what="scale at the date differs from its brackets' leaves", expected=want, got=got, writes_before=writes)
             elif kind == "vread":
                 _, sid, route, vkind, keys, date = do
                 if sid not in systems:
